@@ -11,11 +11,12 @@ def units(tier):
     u = Unit('opc', 'wrap.cc', 'harness.c', extra_repo_cc=['src/expr-info.cc', 'src/nl-reader.cc', 'src/format.cc', 'src/os.cc', 'src/posix.cc', 'nl-writer2/src/nl-writer2.cc', 'nl-writer2/src/nl-utils.cc'],
              externs=['dtoa_r_dmgay', '_ZN2mp15BinaryFormatter3aprERNS_4FileEPKcz', '_ZN3fmt14BasicFormatterIcNS_12ArgFormatterIcEEE6formatENS_15BasicCStringRefIcEE', 'strtod', 'strtod_l', 'newlocale', 'freelocale', '__errno_location'])
     u.pre = pre; u.stub_undefined = True; u.tool_c = ['vf_file.c']
+    u.real_link = [os.path.join(REPO, 'nl-writer2/src/dtoa.cc')]      # real build (replay) uses the real dtoa
     return [u]
 def harnesses(tier):
     D = 3 if tier == 'quick' else 5
     return [
-      Harness('h_opcodes', 'opc', unwind=100, timeout=600, tv_cases=300, bounds='every writer constant (symbolic table index) and every opcode 0..MAX_OPCODE (symbolic)',
+      Harness('h_opcodes', 'opc', unwind=102, timeout=900, tv_cases=3, bounds='every writer constant and every opcode 0..MAX_OPCODE (both tables visited exhaustively)',
               claims='each opcode constant a feeder can pass to the writer denotes, in the reader tables, an expression kind with the same name whose nl_opcode is that code; every opcode the reader knows has a writer constant; nl_opcode(GetOpCodeInfo(o).kind) = o',
               assumptions=['tables regenerated from src/gen-expr-info.cc of the current tree (as the build does)']),
       Harness('h_binary_const', 'opc', unwind=12, timeout=600, tv_cases=0, backend='cadical', bounds='any double (all 2^64 bit patterns)',
